@@ -39,6 +39,9 @@ def family(rp):
     f.add("one-branch-shadow-then-reassign-mutable", "def x := 10\nif x > 5 then\n    def x := 1\n    print(x)\nelse\n    print(\"small\")\nx := 5\nprint(x)\n", "accept")
     f.add("else-branch-shadow-then-reassign-fin", "def fin x := 10\nif x > 5 then\n    print(\"big\")\nelse\n    def x := 1\n    print(x)\nx := 5\n", "reject")
     f.add("loop-shadow-then-reassign-fin", "def fin x := 10\nfor i in 0 .. 2 do\n    def x := 1\n    print(x)\nx := 5\n", "reject")
+    f.add("loop-variable-shadow-then-reassign-fin", "def fin i := 10\nfor i in [1, 2] do print(i)\ni := 3", "reject")
+    f.add("loop-variable-shadow-then-reassign-mutable", "def i := 10\nfor i in [1, 2] do print(i)\ni := 3", "accept")
+    f.add("loop-variable-assigned-after-loop", "for k in [1, 2] do print(k)\nk := 3", "reject")
     f.add("shadowed-by-fin", "def x := 1\ndef fin x := 2\nx := 3", "reject")
     f.add("shadowed-by-mutable", "def fin x := 1\ndef x := 2\nx := 3", "accept")
     f.add("reassign-fin-in-branch", "def fin x := 1\nif True then\n    x := 2", "reject")
